@@ -4,7 +4,7 @@ SPEC = {
     "gen": [],
     "streams": [
         {"name": "sched", "cmd": "sched",
-         "args": {"quick": ["-cases", "400"], "thorough": ["-cases", "6000"]},
+         "args": {"quick": ["-cases", "250"], "thorough": ["-cases", "6000"]},
          "search_args": ["-cases", "1500"]},
     ],
     "trusted_base": [
